@@ -22,7 +22,7 @@ import ast
 from dataclasses import dataclass, field
 from typing import Dict, FrozenSet, List, Optional, Set, Tuple
 
-from .model import Func, own_nodes, unparse
+from .model import Func, own_nodes, own_nodes_ordered, unparse
 from .pipeline import ContextMap
 from .values import Env, texts
 
@@ -203,12 +203,21 @@ class TextFlow:
                         for x in ast.walk(g.target):
                             if isinstance(x, ast.Name):
                                 names[x.id] = names.get(x.id, NONE) | ((it - {"L"}) | {"S"} if "L" in it else it)
+                    bad_filter = None
                     for cond in g.ifs:
                         self._classify_pred(f, cond, lab, None)
                         lab(cond)
+                        if "T" in it and "L" in it and not _literal_component_test(cond, g.target):
+                            bad_filter = cond
+                    if bad_filter is not None:
+                        # components of the user's text are dropped by a test that
+                        # looks *inside* the component: counts as an edit of the text
+                        self._op(f, e, "substring-edit", "component filter by %s" % unparse(bad_filter)[:50], it)
+                        names["<filter>"] = frozenset({"E:" + f.qualname})
                 out = lab(e.elt)
+                extra = names.pop("<filter>", NONE)
                 if "T" in out:
-                    return (out | {"L"}) - {"S"}
+                    return ((out | {"L"}) - {"S"}) | extra
                 return NONE
             if isinstance(e, ast.Compare):
                 self._classify_pred(f, e, lab, None)
@@ -321,9 +330,10 @@ class TextFlow:
             return NONE
 
         # statements ------------------------------------------------------
-        for _round in range(4):
+        ordered = own_nodes_ordered(f.node)
+        for _round in range(12):
             before = (dict(names), dict(field_labels))
-            for n in own_nodes(f.node):
+            for n in ordered:
                 if isinstance(n, ast.Assign):
                     v = lab(n.value)
                     for t in n.targets:
@@ -488,3 +498,33 @@ def _literal_candidates(f: Func, name: str) -> Set[str]:
                     elif isinstance(v, (ast.List, ast.Tuple, ast.Set)):
                         out |= {k.value for k in v.elts if isinstance(k, ast.Constant) and isinstance(k.value, str)}
     return out
+
+
+def _literal_component_test(cond: ast.AST, target: ast.AST) -> bool:
+    """``x == "lit"`` / ``x != "lit"`` / ``x in ("a", "b")`` / ``x not in [..]`` on the
+    loop variable, truthiness of the loop variable, and boolean combinations
+    of those."""
+    tname = target.id if isinstance(target, ast.Name) else None
+    if isinstance(cond, ast.BoolOp):
+        return all(_literal_component_test(v, target) for v in cond.values)
+    if isinstance(cond, ast.UnaryOp) and isinstance(cond.op, ast.Not):
+        return _literal_component_test(cond.operand, target)
+    if isinstance(cond, ast.Name):
+        return cond.id == tname
+    if isinstance(cond, ast.Compare) and len(cond.ops) == 1:
+        l, r = cond.left, cond.comparators[0]
+        op = cond.ops[0]
+
+        def lits(e):
+            if isinstance(e, ast.Constant) and isinstance(e.value, str):
+                return True
+            return isinstance(e, (ast.List, ast.Tuple, ast.Set)) and all(isinstance(x, ast.Constant) and isinstance(x.value, str) for x in e.elts)
+
+        def is_t(e):
+            return isinstance(e, ast.Name) and e.id == tname
+
+        if isinstance(op, (ast.Eq, ast.NotEq)):
+            return (is_t(l) and lits(r)) or (is_t(r) and lits(l))
+        if isinstance(op, (ast.In, ast.NotIn)):
+            return is_t(l) and (lits(r) or isinstance(r, ast.Name))
+    return False
